@@ -287,6 +287,15 @@ def gen(ctx, i, cls):
         ops = [rand_op() for _ in range(nops)]
     summ = {"n": n, "tomos": len(tomos), "ops": [{k: (v if k != "Q" else np.round(np.array(v), 3).tolist()) for k, v in o.items()} for o in ops],
             "row0": {k: float(df[k].iloc[0]) for k in ("x", "shift_x", "z", "shift_z", "phi", "theta", "psi")}}
+    # particles whose three shifts are exactly 0 while x,y,z are off the voxel grid (what scaling a picked list gives)
+    if rng.random() < 0.3 or cls == "update_only":
+        z0 = rng.random(n) < 0.4
+        if n:
+            z0[int(rng.integers(0, n))] = True
+        df.loc[z0, ["shift_x", "shift_y", "shift_z"]] = 0.0
+        if rng.random() < 0.7:
+            df.loc[z0, ["x", "y", "z"]] = np.round(df.loc[z0, ["x", "y", "z"]].to_numpy() * 4) / 4 + 0.25
+    holder = str(rng.choice(["Motl", "Motl", "EmMotl", "StopgapMotl", "RelionMotl:3.0", "RelionMotl:3.1", "RelionMotl:4.0"]))
     # a list whose table index is not 0..n-1 (what remove_feature / row filters / reset_index=False subsets leave behind)
     index_kind = "range"
     if cls == "odd_index" or rng.random() < 0.25:
@@ -298,7 +307,9 @@ def gen(ctx, i, cls):
         else:
             df.index = np.arange(n)[::-1]
     summ["index"] = index_kind
-    return {"i": i, "cls": cls, "df": df, "ops": ops, "dim_rows": dim_rows, "summary": summ}
+    summ["holder"] = holder
+    return {"i": i, "cls": cls, "df": df, "ops": ops, "dim_rows": dim_rows, "summary": summ, "holder": holder,
+            "pixel_size": float(rng.choice([1.0, 2.5, 4.0]))}
 
 
 def nontrivial(case):
@@ -375,9 +386,26 @@ def apply_model(sh, case, op):
 
 def run_case(ctx, case):
     cm = ctx.cm
-    ok, m = ctx.call("Motl(df)", cm.Motl, case["df"].copy())
+    # the list may be held by the base class or by any of its subclasses (they are all particle lists and inherit the five
+    # operations); subclass constructors reset the table index, which the shadow accounts for by reading the state afterwards
+    kind = case.get("holder", "Motl")
+    if kind == "EmMotl":
+        ok, m = ctx.call("EmMotl(df)", cm.EmMotl, case["df"].copy())
+    elif kind == "StopgapMotl":
+        ok, m = ctx.call("StopgapMotl(df)", cm.StopgapMotl, case["df"].copy())
+    elif kind.startswith("RelionMotl"):
+        ver = float(kind.split(":")[1])
+        ok, m = ctx.call("RelionMotl(df)", cm.RelionMotl, case["df"].copy(), version=ver, pixel_size=case.get("pixel_size", 2.5), binning=1.0)
+    else:
+        ok, m = ctx.call("Motl(df)", cm.Motl, case["df"].copy())
     if not ok:
         return
+    if kind != "Motl":
+        ref = state(case["df"])
+        now = state(m.df)
+        w = cmp_state(now, ref["P"], ref["R"], ref["other"], "holding the list in a %s" % kind)
+        if not ctx.check("history_model", w is None, w):
+            return
     st0 = state(m.df)
     # accessor agreement: Motl.get_coordinates / get_rotations are the documented observation points
     gc = np.asarray(m.get_coordinates(), dtype=float)
